@@ -915,6 +915,23 @@ def extreme_histories(rng, tier):
         if b2 > 0:
             h.do(("send", lp, USER0 + 2, p, b2, ("hwithdraw",)))
     cases.append(h.finish())
+    # reserves whose product passes 2^256/10^18 (only reachable by donating on top of a provisioned pool): the fixed-point
+    # ratio inside compute_swap no longer fits and swaps must abort, whatever their size; one reserve exactly twice the other
+    for comm in (3 * 10 ** 15, 0):
+        h = Hist(3, 2, 2, 1, 2 ** 110, 1000, [18, 18], "directed-extreme", "reserve product beyond 2^256/10^18")
+        created = setup_pairs(h, rng, [(("t", 2), ("t", 3))], comm=comm, provide=False, native_decs=[18, 18])
+        p = created[0]
+        h.do(("provide", p, USER0, [], ("t", 2), 2 ** 62, ("t", 3), 2 ** 62, None, None))
+        h.do(gen_swap(h, rng, p, USER0 + 1, limits=False))
+        r0, r1 = h.reserves(p)
+        h.do(("transfer", 2, USER0 + 2, p, 2 ** 99 - r0))
+        h.do(("transfer", 3, USER0 + 2, p, 2 ** 98 - r1))
+        for offer, amt in ((("t", 3), 3), (("t", 3), 2 ** 60 + 7), (("t", 2), 5), (("t", 2), 2 ** 70 + 1), (("t", 3), 1)):
+            h.query("sim %d %s %d" % (p, a_line(offer), amt))
+            h.do(("send", offer[1], USER0 + 1, p, amt, ("hswap", offer, amt, None, None, None)))
+        lp = h.pair_lp(p)
+        h.do(("send", lp, USER0, p, h.bal(lp, USER0) // 2, ("hwithdraw",)))
+        cases.append(h.finish())
     # lopsided pools: a supply of ~1e19 LP units against one tiny reserve, then large burns (rounding of the refund
     # is then dominated by the burn amount if it is computed in the wrong order)
     for (n0, n1) in ([(3 * 10 ** 30, 10 ** 8), (10 ** 37, 30)] if tier == "quick" else
@@ -1017,6 +1034,13 @@ def funds_matrix(rng, tier):
         nn, ntp = created[0], created[1]
         u = USER0 + 1
         attach = lambda d, decl: [None, 0, decl - 1, decl, decl + 1]
+        # the declared amount attached in the WRONG denom (the pair's other asset / an unrelated coin), alone and next to other coins
+        for decl in (v, 1):
+            for wrong in ([(1, decl)], [(2, decl)], [(1, decl), (2, decl)], [(2, decl), (0, decl - 1)] if decl > 1 else [(2, decl)]):
+                h.do(("swap", nn, u, wrong, ("n", 0), decl, None, None, None))
+                h.do(("swap", ntp, u, wrong, ("n", 0), decl, None, None, None))
+                h.do(("provide", ntp, u, wrong, ("n", 0), decl, ("t", 2), 4 * decl, None, None))
+                h.do(("provide", nn, u, wrong, ("n", 0), decl, ("n", 1), decl, None, None))
         for decl in (0, v, 1, 3):      # 1 and 3: the return floors to zero on these pools (nothing is paid out)
             for att in attach(0, decl) + ([decl * 1000] if decl in (1, 3) else []):
                 for extra in (False, True):
@@ -1268,7 +1292,8 @@ def lp_handover_histories(rng, tier):
     for rep in range({"quick": 1, "thorough": 4}[tier]):
         # the last two users are proxy contracts: LP held, handed over and redeemed by contracts
         h = Hist(4, 2, 2, 3, 10 ** 15, 1000, [6, 18], "directed-matrix", "LP handed over by transfer, then withdrawn", proxies=2)
-        created = setup_pairs(h, rng, kinds, comm=3 * 10 ** 15, scale=10 ** 9, native_decs=[6, 6])
+        # pairs created WITH first-provision minimums (met by the seeding deposit): they bind the first provision only
+        created = setup_pairs(h, rng, kinds, comm=3 * 10 ** 15, scale=10 ** 9, native_decs=[6, 6], mins=(10 ** 6, 1000))
         for i, p in enumerate(created):
             lp = h.pair_lp(p)
             a0, a1 = h.pair_assets(p)
@@ -1477,6 +1502,19 @@ def router_histories(rng, tier):
                     h.do(("router_ops", u, [(ops[0][0][1], amount)], ops, m, to), quote)
                 else:
                     h.do(("send", ops[0][0][1], u, ROUTER, amount, ("hrouter", ops, m, to)), quote)
+        # directed: the recipient is the LP token contract of the last hop's pair (and of the first hop's pair)
+        for ops in ([(A, B), (B, C)], [(C, B)]):
+            for which in (-1, 0):
+                u = rng.choice(h.users())
+                q_ = h.pair_for(*ops[which])
+                if q_ is None:
+                    continue
+                amount = max(1, min(h.abal(ops[0][0], u), loguniform(rng, 10, 40)))
+                quote = h.query("rsim %d %s" % (amount, ops_line(ops)))
+                if ops[0][0][0] == "n":
+                    h.do(("router_ops", u, [(ops[0][0][1], amount)], ops, None, h.pair_lp(q_)), quote)
+                else:
+                    h.do(("send", ops[0][0][1], u, ROUTER, amount, ("hrouter", ops, None, h.pair_lp(q_))), quote)
         # directed: minimums in the upper half of the 128-bit range (far above anything a route can deliver)
         for m in (2 ** 128 - 1, 2 ** 127 + 2 ** 126):
             u = rng.choice(h.users())
@@ -1540,8 +1578,11 @@ def router_histories(rng, tier):
             elif rng.random() < 0.3:
                 m = rng.choice([0, 1, 2 ** 127, 2 ** 128 - 1, 2 ** 127 + 2 ** 126, 2 ** 127 + 10 ** 30])
             to = rng.choice([None, None, rng.choice(h.users()), u])
-            if ops and rng.random() < 0.1:
-                to = rng.choice([ROUTER] + [q for q in (h.pair_for(o, a) for o, a in ops) if q is not None])
+            if ops and rng.random() < 0.15:
+                rp_ = [q for q in (h.pair_for(o, a) for o, a in ops) if q is not None]
+                # the router, a pool of the route, or the LP token contract of one of its pools (an ordinary account to the
+                # bank and the cw20s, but one the pair itself knows about)
+                to = rng.choice([ROUTER] + rp_ + [h.pair_lp(q) for q in rp_])
             if ops and rng.random() < 0.35:
                 # a recipient who already holds more of the final asset than the sender, minimum just above the quote
                 tgt = ops[-1][1]
